@@ -572,6 +572,30 @@ def error_obs(c: Ctx) -> List[RxOb]:
         if qs:
             obs.append(RxOb(name + "/fixed", ["c_lexer._fixed_tokens"] + fns, qs, validate, replay,
                             f"no fixed token outruns the ERROR match on '{kind}' texts"))
+        M = getattr(S, "BAD_WHOLE", {}).get(kind)
+        if M is not None:
+            # t = m MARK v with m a whole malformed literal: some ERROR rule must match a prefix reaching the marker
+            Mm = rx.cat(rx.inter(M, rx.SIGMA_STAR), rx.MARKCH, rx.SIGMA_STAR)
+
+            def validate_whole(label, t):
+                m, _, v = t.partition(chr(rx.MARK))
+                tok, errors, pos = real()["first_step"](m + v)
+                return pos < len(m), f"real lexer first step on {show(m + v)}: token={tok!r} errors={[e[0] for e in errors]!r} consumed={pos} of the {len(m)} characters of the malformed literal"
+
+            def replay_whole(label, t, kind=kind):
+                m, _, v = t.partition(chr(rx.MARK))
+                return REPLAY_PRELUDE + f'''
+m, v = {m!r}, {v!r}   # m: a whole malformed literal of kind {kind!r}; v: what follows
+tok, errors, consumed = first_step(m + v)
+print("first lexer step on", ascii(m + v), "-> token", tok, "errors", errors, "consumed", consumed, "of", len(m))
+print("all tokens/errors:", lex_all(m + v))
+print("REPRODUCED" if consumed < len(m) else "NOT-REPRODUCED")
+'''
+            obs.append(RxOb(name + "/consumed-whole", fns,
+                            [("no ERROR rule reaches the end of the malformed literal",
+                              [(Mm, True)] + [(c.lang("at_or_beyond", e), False) for e in err])],
+                            validate_whole, replay_whole,
+                            f"the ERROR match on a '{kind}' text covers the whole malformed literal (it is not split into an error and further tokens)"))
     return obs
 
 
